@@ -479,11 +479,13 @@ def gxx_preprocess(
                 path.write_text("", encoding="utf-8")
         except OSError:
             pass
+    unity = workdir / "preprocess_unity.cpp"
+    unity.write_text("".join(f'#include "{s}"\n' for s in sources), encoding="utf-8")
     cmd = ["g++", "-std=c++17", "-E", "-nostdinc", "-nostdinc++", "-fdiagnostics-plain-output",
            "-I", str(stubs)]
     for d in include_dirs:
         cmd += ["-I", d]
-    cmd += list(sources)
+    cmd.append(str(unity))
     proc_rc, _, err = run_group(cmd, timeout, cwd=str(workdir), discard_stdout=True)
     text = err.decode("utf-8", "replace")
     return proc_rc, parse_gxx(text), text
